@@ -311,6 +311,14 @@ def main(run):
                       "not run: %d cases\n" % notrun, tag="notrun", no_input=True)
     run.cov["corpus_cases"] = len(corpus)
     if run.tier == "thorough":
+        # independent re-check of the compiled proofs (coqchk: kernel only, reports axioms)
+        rc, out = vlib.sh(["coqchk", "-silent", "-o", "-Q", ".", "LibcoapV", "LibcoapV.Properties_C04"],
+                          cwd=vlib.COQ, timeout=1800, check=False)
+        ok = rc == 0 and "* Axioms: <none>" in out
+        run.cov["coqchk"] = "ok, axioms: none" if ok else out[-600:]
+        if not ok:
+            run.violation("coqchk does not accept Properties_C04.vo (or finds axioms)", out[-4000:],
+                          tag="coqchk", no_input=True)
         # the same generated cases under ASan+UBSan (library instrumented): a wrong memmove length or
         # a stale pointer after realloc traps even where the bytes happen to come out right
         adrv = vlib.build_driver("h_edit", ["h_edit.c"], variant="asan")
